@@ -187,13 +187,32 @@ Theorem workinit_race_overlap_refuted :
 Proof. exact workinit_race_overlap_lemma. Qed.
 Print Assumptions workinit_race_overlap_refuted.
 
-(* three threads: WorkFree of one thread resets the whole tail while another still works *)
-Theorem workfree_overlap_refuted :
+(* P threads on the user stack, EVERY interleaving of their locked sections over the WHOLE run -- WorkInit, working,
+   WorkFree (which since fix 'WorkFree keeps the tail' releases nothing: the tail is reclaimed by the next MemInit): under the
+   same alignment hypotheses as above, blocks of different threads never overlap and stay inside the tail region.  Before the
+   fix the first thread to finish reset the whole tail and a thread starting late was handed live memory (findings F17,
+   C14-workfree: the refuted statement workfree_overlap_refuted of earlier versions). *)
+Theorem workfree_any_interleaving :
+  forall (c : cfg) (n w ba L T1 : Z),
+    (ba + L) mod 8 = 0 -> work_dsize c n w mod 8 = 0 -> 0 <= work_isize n w -> 0 <= work_dsize c n w -> 0 <= T1 <= L ->
+    forall (P : nat) (sched : list nat),
+      let '(ts, s) := run_sched c n w ba sched (repeat TStart P) (mkStack L T1 T1 L) in
+      (forall i t b, nth_error ts i = Some t -> In b (thread_blocks c n w t) -> block_in T1 L b) /\
+      (forall i j ti tj bi bj, i <> j -> nth_error ts i = Some ti -> nth_error ts j = Some tj ->
+            In bi (thread_blocks c n w ti) -> In bj (thread_blocks c n w tj) -> disjoint bi bj) /\
+      (forall i iw dw, nth_error ts i = Some (TReady iw dw) -> disjoint (iw, work_isize n w) (dw, work_dsize c n w)) /\
+      s_used s = s_top1 s + (s_size s - s_top2 s) /\ s_top1 s = T1 /\ T1 <= s_top2 s <= L.
+Proof. exact workfree_threads_lemma. Qed.
+Print Assumptions workfree_any_interleaving.
+
+(* the schedule that used to produce the overlap (thread 1 finishes first, thread 2 starts late): now disjoint *)
+Theorem workfree_keeps_tail :
   exists lwork sched,
     let '(ts, s) := run_sched small_cfg 3 1 0 sched [TStart; TStart; TStart] (mkStack lwork 264 264 lwork) in
-    ts = [TReady 9880 9808; TDone; TGotI 9880] /\ pairwise_disjointb (live_blocks small_cfg 3 1 ts) = false.
-Proof. exact workfree_overlap_lemma. Qed.
-Print Assumptions workfree_overlap_refuted.
+    nth_error ts 1 = Some TDone /\ (exists iw, nth_error ts 2 = Some (TGotI iw)) /\
+    pairwise_disjointb (live_blocks small_cfg 3 1 ts) = true.
+Proof. exact workfree_keeps_tail_example. Qed.
+Print Assumptions workfree_keeps_tail.
 
 (* MemInit failed, no L/U built, p?gssvx still reads L->Store / U->Store (superlu_?QuerySpace) *)
 Theorem driver_reads_uninit_L_refuted :
